@@ -75,6 +75,8 @@ pub struct Outcome {
     pub trace_hash: u64,
     pub nontrivial: bool,
     pub exposed: Option<String>,
+    pub suspensions_seen: u64,
+    pub fault_fired: bool,
 }
 
 pub fn apply_update(cur: Option<&Val>, delta: i64) -> Val {
@@ -194,25 +196,31 @@ impl SimCfg for MemCfg {
     }
 }
 
-struct Runner<'a, C: SimCfg> {
-    sc: &'a Scenario,
-    h: Arc<Harness>,
-    env: RunEnv,
-    engine: Option<Arc<Engine<C>>>,
-    tracked: Option<TrackedEngine<C>>,
-    model: Model<'a>,
-    cursor: usize,
-    stats: Stats,
+pub(crate) struct Runner<'a, C: SimCfg> {
+    pub(crate) sc: &'a Scenario,
+    pub(crate) h: Arc<Harness>,
+    pub(crate) env: RunEnv,
+    pub(crate) engine: Option<Arc<Engine<C>>>,
+    pub(crate) tracked: Option<TrackedEngine<C>>,
+    pub(crate) model: Model<'a>,
+    pub(crate) cursor: usize,
+    pub(crate) stats: Stats,
     /// committed input states S_0 (nothing set), S_1, ...
-    input_history: Vec<std::collections::HashMap<u32, Val>>,
+    pub(crate) input_history: Vec<std::collections::HashMap<u32, Val>>,
+    /// suspension points counted on the fault target of this run
+    pub(crate) suspensions_seen: u64,
+    pub(crate) fault_fired: bool,
+    /// inputs whose set_input call was cancelled: (node, old, new)
+    pub(crate) uncertain_inputs: Vec<(u32, Option<Val>, Val)>,
+    pub(crate) pipeline_gap: Option<String>,
 }
 
-fn fail(class: &str, msg: String) -> Failure {
+pub(crate) fn fail(class: &str, msg: String) -> Failure {
     Failure { class: class.into(), msg, known: None }
 }
 
 impl<'a, C: SimCfg> Runner<'a, C> {
-    fn drain(&mut self) -> Result<(), Failure> {
+    pub(crate) fn drain(&mut self) -> Result<(), Failure> {
         loop {
             let (evs, invs) = {
                 let st = self.h.st.lock();
@@ -231,16 +239,16 @@ impl<'a, C: SimCfg> Runner<'a, C> {
         }
     }
 
-    fn engine(&self) -> &Arc<Engine<C>> { self.engine.as_ref().unwrap() }
+    pub(crate) fn engine(&self) -> &Arc<Engine<C>> { self.engine.as_ref().unwrap() }
 
-    async fn ensure_tracked(&mut self, fresh: bool) {
+    pub(crate) async fn ensure_tracked(&mut self, fresh: bool) {
         if fresh || self.tracked.is_none() {
             self.tracked = None;
             self.tracked = Some(self.engine().clone().tracked().await);
         }
     }
 
-    async fn user_query(&mut self, root: u32, ctx: &str) -> Result<(), Failure> {
+    pub(crate) async fn user_query(&mut self, root: u32, ctx: &str) -> Result<(), Failure> {
         self.model.user_request(root);
         self.stats.user_requests += 1;
         let te = self.tracked.as_ref().unwrap();
@@ -250,9 +258,57 @@ impl<'a, C: SimCfg> Runner<'a, C> {
         self.model.serve(root, &v, ctx)
     }
 
-    async fn session(&mut self, steps: &[SessStep], commit: bool) -> Result<(), Failure> {
+    pub(crate) async fn session(&mut self, steps: &[SessStep], commit: bool) -> Result<(), Failure> {
+        self.session_faulted(steps, commit, None).await
+    }
+
+    /// A session, optionally with one of its calls cancelled at its n-th
+    /// suspension.
+    pub(crate) async fn session_faulted(
+        &mut self,
+        steps: &[SessStep],
+        commit: bool,
+        cancel: Option<(crate::scenario::Target, u64)>,
+    ) -> Result<(), Failure> {
+        use crate::scenario::Target;
+        use simkit::sched::{CancelAt, Cancelled};
         self.tracked = None;
-        let mut s = self.engine().input_session().await;
+        let open_n = match cancel {
+            Some((Target::OpenSession, n)) => Some(n),
+            _ => None,
+        };
+        let mut s = if let Some(n) = open_n {
+            // a reader is still active while the session is being opened, so
+            // the call really waits for the phase lock
+            {
+                let eng = self.engine().clone();
+                tokio::spawn(async move {
+                    let te = eng.tracked().await;
+                    for _ in 0..3 {
+                        tokio::task::yield_now().await;
+                    }
+                    drop(te);
+                });
+                tokio::task::yield_now().await;
+            }
+            let eng = self.engine().clone();
+            match CancelAt::new(async move { eng.input_session().await }, n).await {
+                Cancelled::Completed(s, seen) => {
+                    self.suspensions_seen = seen;
+                    s
+                }
+                Cancelled::Dropped(seen) => {
+                    self.suspensions_seen = seen;
+                    self.fault_fired = true;
+                    // the call was abandoned: no session object exists.  The
+                    // engine must stay usable; the history simply goes on.
+                    self.quiesce().await;
+                    return self.drain();
+                }
+            }
+        } else {
+            self.engine().input_session().await
+        };
         self.h.epoch.fetch_add(1, Ordering::SeqCst);
         self.model.begin_epoch();
         self.stats.epochs += 1;
@@ -264,7 +320,25 @@ impl<'a, C: SimCfg> Runner<'a, C> {
                         Some(c) if c == val => SetInputResult::Unchanged,
                         Some(_) => SetInputResult::Updated,
                     };
-                    let r = s.set_input(In(*node), val.clone()).await;
+                    let step_idx = steps.iter().position(|x| std::ptr::eq(x, step)).unwrap() as u32;
+                    let r = if let Some((Target::SessionStep(i), n)) = cancel
+                        && i == step_idx
+                    {
+                        match CancelAt::new(s.set_input(In(*node), val.clone()), n).await {
+                            Cancelled::Completed(r, seen) => {
+                                self.suspensions_seen = seen;
+                                r
+                            }
+                            Cancelled::Dropped(seen) => {
+                                self.suspensions_seen = seen;
+                                self.fault_fired = true;
+                                self.uncertain_inputs.push((*node, self.model.inputs.get(node).cloned(), val.clone()));
+                                continue;
+                            }
+                        }
+                    } else {
+                        s.set_input(In(*node), val.clone()).await
+                    };
                     if r != expect {
                         return Err(fail(
                             "wrong_set_input_result",
@@ -323,9 +397,23 @@ impl<'a, C: SimCfg> Runner<'a, C> {
             }
         }
         if commit {
-            s.commit().await;
+            if let Some((Target::Commit, n)) = cancel {
+                match CancelAt::new(s.commit(), n).await {
+                    Cancelled::Completed((), seen) => self.suspensions_seen = seen,
+                    Cancelled::Dropped(seen) => {
+                        self.suspensions_seen = seen;
+                        self.fault_fired = true;
+                    }
+                }
+            } else {
+                s.commit().await;
+            }
         } else {
             drop(s);
+        }
+        if cancel.is_some() {
+            self.quiesce().await;
+            self.resolve_uncertain_inputs().await?;
         }
         self.input_history.push(self.model.inputs.clone());
         self.drain()?;
@@ -342,7 +430,7 @@ impl<'a, C: SimCfg> Runner<'a, C> {
     /// been repaired by a RepairFirewall caller, its backward projections
     /// have run and dirty propagation is complete: by the engine's own
     /// design every later request is covered.
-    async fn warm_up(&mut self) -> Result<(), Failure> {
+    pub(crate) async fn warm_up(&mut self) -> Result<(), Failure> {
         self.ensure_tracked(true).await;
         // ascending: when the pass of node m runs, the passes of all n < m
         // are done, so every node a firewall of T(m) may newly read has a
@@ -389,7 +477,13 @@ impl<'a, C: SimCfg> Runner<'a, C> {
                 }
                 Ok(())
             }
-            other => Err(fail("harness_error", format!("op not supported here: {other:?}"))),
+            Op::Concurrent { roots, share_tracked } => {
+                self.concurrent(roots, *share_tracked, None).await
+            }
+            Op::ReadersWriter { sessions, readers } => {
+                self.readers_writer(sessions, readers).await
+            }
+            Op::Faulted { op, fault } => self.faulted(op, fault).await,
         }
     }
 
@@ -406,6 +500,17 @@ impl<'a, C: SimCfg> Runner<'a, C> {
             }
             pipeline::open_forever();
             drop(e);
+            if self.env.disk.is_some() {
+                let c = pipeline::counters();
+                if (c.created != c.submitted || c.commit_processed != c.submitted)
+                    && self.pipeline_gap.is_none()
+                {
+                    self.pipeline_gap = Some(format!(
+                        "after shutdown: {} write batches created, {} submitted, {} reached the commit stage",
+                        c.created, c.submitted, c.commit_processed
+                    ));
+                }
+            }
         }
     }
 
@@ -567,6 +672,10 @@ fn run_generic<C: SimCfg>(sc: &Scenario, decisions: Option<&[Decision]>) -> Outc
             },
         },
         input_history: vec![std::collections::HashMap::new()],
+        suspensions_seen: 0,
+        fault_fired: false,
+        uncertain_inputs: Vec::new(),
+        pipeline_gap: None,
         engine: None,
         tracked: None,
         model,
@@ -599,6 +708,11 @@ fn run_generic<C: SimCfg>(sc: &Scenario, decisions: Option<&[Decision]>) -> Outc
     let ctl = sched::take().unwrap();
     let panics = simkit::panics::drain();
     let mut failure = res.err();
+    if failure.is_none()
+        && let Some(g) = &runner.pipeline_gap
+    {
+        failure = Some(fail("pipeline_gap", g.clone()));
+    }
     if failure.is_none() && !panics.is_empty() {
         let p = &panics[0];
         failure = Some(fail(
@@ -624,7 +738,22 @@ fn run_generic<C: SimCfg>(sc: &Scenario, decisions: Option<&[Decision]>) -> Outc
     for (k, v) in &ctl.hits {
         stats.probes.insert((*k).to_string(), *v);
     }
-    let nontrivial = stats.epochs >= 2 && stats.serves_old > 0 && stats.updated_inputs > 0;
+    let base = stats.epochs >= 2 && stats.serves_old > 0 && stats.updated_inputs > 0;
+    let has = |f: &dyn Fn(&Op) -> bool| sc.ops.iter().any(|o| f(o));
+    let probe = |k: &str| stats.probes.get(k).copied().unwrap_or(0);
+    let nontrivial = if has(&|o| matches!(o, Op::ReadersWriter { .. })) {
+        probe("c04_lives_overlapping_session") > 0
+    } else if has(&|o| matches!(o, Op::Faulted { .. })) {
+        runner.fault_fired
+    } else if has(&|o| matches!(o, Op::Concurrent { .. })) {
+        base && (probe("cl_wait_existing") + probe("scc_wait") > 0)
+    } else if sc.cfg.crash_check {
+        base && stats.phys_commits >= 2
+    } else if has(&|o| matches!(o, Op::Restart)) {
+        base && stats.restarts > 0
+    } else {
+        base
+    };
     Outcome {
         failure,
         stats,
@@ -632,6 +761,8 @@ fn run_generic<C: SimCfg>(sc: &Scenario, decisions: Option<&[Decision]>) -> Outc
         trace_hash: ctl.trace_hash,
         nontrivial,
         exposed: m.exposed.clone(),
+        suspensions_seen: runner.suspensions_seen,
+        fault_fired: runner.fault_fired,
     }
 }
 
